@@ -153,6 +153,13 @@ theorem C14_inflight_bound (s : St) (k n : Nat) (h : SInv s) : SInv (burst s k n
         · intro c0; split <;> rfl
     · exact C14_close_bound s k ⟨h1, h2, h3⟩
 
+/-- **a request that ends in a recoverable refusal costs nothing**: any number of them leaves every counter where it was, and
+    the connection open — so a later burst within the limit is still admitted -/
+theorem C14_failed_requests_free_their_slots (s : St) (k n : Nat) :
+    (failing s k n).1 = s ∧ (failing s k n).2.2 = false := by
+  unfold failing
+  split <;> simp
+
 /-- **C14 (slots are released)**: when the modulator answers, every handler finishes: nothing stays counted. -/
 theorem C14_release_frees (s : St) (h : SInv s) : SInv (release s).1 ∧ ∀ c ∈ (release s).1.conns, c.executing = 0 := by
   obtain ⟨h1, h2, h3⟩ := h
@@ -187,3 +194,4 @@ end Narwhal.Limits
 #print axioms Narwhal.Limits.C14_close_frees
 #print axioms Narwhal.Limits.C14_inflight_bound
 #print axioms Narwhal.Limits.C14_release_frees
+#print axioms Narwhal.Limits.C14_failed_requests_free_their_slots
